@@ -377,6 +377,8 @@ Quiescent(s, sc, e, rb, dropped) ==
 CStep(s, sc, e, rb, dropped) ==
     CASE e.ev = "CSend" -> CSend(s, sc, e)
       [] e.ev = "COpen" /\ e.ok -> [s |-> [s EXCEPT !.local[e.c + 1] = e.local], v |-> <<>>]
+      \* a client cannot connect although the server has not been dropped: nobody is accepting any more
+      [] e.ev = "COpen" /\ ~e.ok -> [s |-> s, v |-> V(dropped, Own(sc, "C08"), "ConnectRefusedWhileServing")]
       [] e.ev = "CHalf" -> CFault(s, sc, e, "half")
       [] e.ev = "CClose" -> CFault(s, sc, e, "close")
       [] e.ev = "CReset" -> CFault(s, sc, e, "reset")
